@@ -196,3 +196,40 @@ def _(u):
 @unit("decoding.top_k_filter.k3", file=DEC, func="modify_logits_for_top_k_filtering", props=("C10",))
 def _(u):
     _topk_filter(u, 3)
+
+
+def _process_logits_filtered(u, k):
+    """process_logits up to (not including) the final log-softmax, which is replaced by the identity: the filtered logits."""
+    B = u.dim("B")
+    N = u.dim("N", k)
+    logits = u.tensor("logits", (B, N), "f")
+    mask = u.tensor("mask", (B, N), "b")
+    temp = u.scalar("temperature", "f")
+    ops.uses_inf()
+    u.requires(AND(temp > 0, u.forall((B, N), lambda b, j: AND(logits.at(b, j) > -ops.INF, logits.at(b, j) < ops.INF,
+                                                                 logits.at(b, j) / temp > -ops.INF, logits.at(b, j) / temp < ops.INF))))
+    u.requires(u.forall((B,), lambda b: u.exists((N,), lambda j: mask.at(b, j))))
+    pre = u.snapshot(logits)
+    u.no_spec.add((DEC, "process_logits"))
+    u.stub(F=u.ns(log_softmax=lambda x, dim=-1: x))
+    u.inline((DEC, "process_logits"), (DEC, "modify_logits_for_top_k_filtering"))
+    out = u.run(DEC, "process_logits", logits, mask, temp, 0.0, k, record=False)
+    b = u.idx((B,), "b")
+    j, j2 = u.idx((N, N), "j j2")
+    same_tensor(u, "filtered.shape", out, (B, N), lambda bb, jj: out.at(bb, jj), tags=("C10",))
+    # (A1b: -inf is the constant -INF; scaling it by the temperature gives -INF / T, which stands for -inf as well)
+    u.prove("filtered.infeasible-actions-are-removed", IMPL(NOT(mask.at(b, j)), OR(out.at(b, j) == -ops.INF, out.at(b, j) == -ops.INF / temp)), tags=("C10",))
+    # a most likely FEASIBLE action always survives the filters (so a row with a feasible action never becomes all -inf)
+    best = AND(mask.at(b, j), u.forall((N,), lambda q: IMPL(mask.at(b, q), pre.at(b, q) <= pre.at(b, j))))
+    u.prove("filtered.best-feasible-action-survives", IMPL(best, AND(out.at(b, j) > -ops.INF, out.at(b, j) == pre.at(b, j) / temp)), tags=("C10", "C02"))
+    u.canary("filtered.everything-survives", out.at(b, j) > -ops.INF)
+
+
+@unit("decoding.process_logits.filtered.k2", file=DEC, func="process_logits", props=("C10", "C02"))
+def _(u):
+    _process_logits_filtered(u, 2)
+
+
+@unit("decoding.process_logits.filtered.k0", file=DEC, func="process_logits", props=("C10", "C02"))
+def _(u):
+    _process_logits_filtered(u, 0)
